@@ -476,6 +476,8 @@ class WriterThread(threading.Thread):
         self.queue = queue.SimpleQueue()
         self.write_indexes = [i for i in INDEXES.values() if i.enabled]
         self.processing = False
+        # ids of queued "add" tasks that have not been written yet
+        self.pending = set()
 
     def run(self):
         env = self.env
@@ -522,6 +524,8 @@ class WriterThread(threading.Thread):
             except Exception:
                 log.exception("writer")
             finally:
+                if operation == "add":
+                    self.pending.discard(args[0].id)
                 self.processing = False
 
     def _delete_event(self, txn, event: Event, log):
@@ -669,10 +673,15 @@ class LMDBStorage(BaseStorage):
             raise StorageError("invalid: created_at or kind out of range")
 
         if not event.is_ephemeral:
+            pending = self.writer_thread.pending
+            if event.id in pending:
+                # accepted a moment ago and still waiting for the writer
+                return event, False
             with self.db.begin(buffers=True) as txn:
                 if get_event_data(txn, event.id_bytes):
                     # already stored: nothing changes, nobody is notified again
                     return event, False
+            pending.add(event.id)
             self.writer_queue.put(("add", [event]))
         await self.post_save(event)
         return event, True
